@@ -66,6 +66,10 @@ def run(ctx):
     from . import C04 as _C04
     ctx.do_as(_C04.rule_flag_back, {"C04.flag-back": "C02.strict-refusal"})
     ctx.do_as(_C04.rule_privileged_keys, {"C04.privileged-keys": "C02.strict-refusal"})
+    # ... and a name is looked up in the registry of ITS kind: an extensions key answered from the object / observable /
+    # marking registries ('mutex', 'statement') is validated as that type and emitted as an extension
+    from . import C19 as _C19
+    ctx.do_as(_C19.rule_lookups_name_their_category, {"C19.version-scope": "C02.strict-refusal"})
     # ... and so is the validation of granular-marking selectors against the content (C08's clauses)
     from . import C08 as _C08
     ctx.do(_C08.rule_syntax_agreement, rule_id="C02.selectors")
